@@ -22,8 +22,13 @@ interrupts do not move it; fault-free iterations never touch it; outside the bac
 is exactly an iteration of the loop without any back-off state, and even inside the window the loop pops, dispatches
 and reschedules exactly what that loop would.
 
+A queue that reports a size but has no head (`Size() > 0`, `Head()`/`Pop()` = `ErrQueueEmpty`) is not an error for
+the loop, so the back-off state does not apply; `calculateNextTick` arms `RetryInterval` in that case
+(`C15_no_spin_on_spurious_empty`).
+
 Negative controls: the loop without back-off state spins (`C15_backoff_fails_without_flag`); the loop with a `failed`
-flag (the first repair) is starved by interrupts (`C15_interrupts_postpone_recovery`).
+flag (the first repair) is starved by interrupts (`C15_interrupts_postpone_recovery`); `calculateNextTick` returning
+the zero duration on `ErrQueueEmpty` spins on such a queue (`C15_spurious_empty_spins_unrepaired`).
 
 Not proved here: absence of panics and deadlocks of the real code and wall-clock latencies (harness, observed).
 -/
@@ -187,6 +192,86 @@ theorem C15_interrupts_postpone_recovery (S : Shape) (c : Cfg) (trig : Trig) (in
     rintro o (rfl | ho)
     · exact ⟨harm, hi.2.1⟩
     · exact ih'.2 o ho
+
+/-! ## A queue that reports a size but has no head -/
+
+/-- For a queue whose `Size()` says non-empty while `Head()` and `Pop()` answer `ErrQueueEmpty` (a custom queue may
+    well do that: a size that is an estimate, entries that are not visible yet), outside the back-off window and in
+    every well-timed run: the back-off state is never touched, nothing is dispatched, every iteration arms
+    `RetryInterval`, and an iteration whose wait is not ended by an interrupt lasts at least `RetryInterval`: the
+    next iteration arms its timer at least `RetryInterval` after this one did. -/
+theorem C15_no_spin_on_spurious_empty (S : Shape) (hS : WF S) (c : Cfg) (trig : Trig) (st0 : BState) (prev : Int)
+    (ins : List In) (hall : ∀ i ∈ ins, SpuriousEmpty i ∧ inBackoff S st0 i.now1 = false)
+    (hwt : WellTimed S c trig st0 prev ins) :
+    (runLoop S c trig st0 ins).2 = st0 ∧
+    ∀ (k : Nat) (ik : In) (ok : Out), ins[k]? = some ik → (runLoop S c trig st0 ins).1[k]? = some ok →
+      ok.armed = c.R ∧ ok.dispatched = none ∧
+      (ik.interrupted = false → ik.tArm + c.R ≤ ik.tickAt ∧
+        ∀ ik1, ins[k + 1]? = some ik1 → ik.tArm + c.R ≤ ik1.tArm) := by
+  induction ins generalizing prev with
+  | nil => simp [runLoop]
+  | cons i is ih =>
+    obtain ⟨w1, w2, w3, w4, w5, w6, w7, wrest⟩ := hwt
+    obtain ⟨hsp, hnb⟩ := hall i (by simp)
+    obtain ⟨ha, hd, hst⟩ := iter_spurious S hS c trig st0 i hsp hnb
+    rw [hst] at wrest
+    obtain ⟨ih1, ih2⟩ := ih i.nowErr (fun x hx => hall x (by simp [hx])) wrest
+    simp only [runLoop, hst]
+    refine ⟨ih1, ?_⟩
+    intro k ik ok hik hok
+    cases k with
+    | zero =>
+      have hik' : i = ik := by simpa using hik
+      have hok' : iter S c trig st0 i = ok := by simpa using hok
+      subst hik'; subst hok'
+      refine ⟨ha, hd, ?_⟩
+      intro hni
+      have h5 := w5 hni
+      rw [ha] at h5
+      refine ⟨h5, ?_⟩
+      intro ik1 hik1
+      cases is with
+      | nil => simp at hik1
+      | cons i1 is1 =>
+        have : i1 = ik1 := by simpa using hik1
+        subst this
+        obtain ⟨v1, v2, v3, -⟩ := wrest
+        omega
+    | succ k =>
+      simp only [List.getElem?_cons_succ] at hik hok
+      exact ih2 k ik ok hik hok
+
+/-- the input of one iteration of the spinning scenario, everything happening at the instant `now` -/
+def spuriousIn (now : Int) : In :=
+  { size := some 1, now1 := now, head := .empty, now2 := now, tArm := now, interrupted := false, tickAt := now,
+    pop := .empty, nowVal := now, pushOk := true, nowErr := now }
+
+/-- Negative control: `calculateNextTick` as it was before its repair (zero duration on `ErrQueueEmpty`). On such a
+    queue neither back-off applies — `Head()`'s `ErrQueueEmpty` arms 0 and `Pop()`'s `ErrQueueEmpty` is not an error
+    for `fetchAndReschedule` — so any number `n` of iterations, three queue calls each, happen at one and the same
+    instant in a well-timed run. -/
+theorem C15_spurious_empty_spins_unrepaired (S : Shape) (hS : WF S) (c : Cfg) (trig : Trig) (now : Int) (n : Nat) :
+    (runLoop (zeroOnEmptyHead S) c trig {} (List.replicate n (spuriousIn now))).1 =
+      List.replicate n
+        { armed := 0, calls := [(.size, .ok), (.head, .empty), (.pop, .empty)], dispatched := none, pushed := none,
+          popped := none, armErr := false, tickErr := false, st := {} } ∧
+    WellTimed (zeroOnEmptyHead S) c trig {} now (List.replicate n (spuriousIn now)) ∧
+    SpuriousEmpty (spuriousIn now) ∧ inBackoff (zeroOnEmptyHead S) {} now = false := by
+  obtain ⟨-, h2, -, -, h5, -, -, h8, -, h10, -⟩ := hS
+  have hit : iter (zeroOnEmptyHead S) c trig {} (spuriousIn now) =
+      { armed := 0, calls := [(.size, .ok), (.head, .empty), (.pop, .empty)], dispatched := none, pushed := none,
+        popped := none, armErr := false, tickErr := false, st := {} } := by
+    simp [iter, zeroOnEmptyHead, spuriousIn, chooseArm, inBackoff, h2, h5, calcNextTick, fetch, Res.outcome,
+      afterTick, h8, h10]
+  refine ⟨?_, ?_, ⟨⟨0, rfl⟩, rfl, rfl⟩, by simp [inBackoff, zeroOnEmptyHead, h2]⟩
+  · induction n with
+    | zero => simp [runLoop]
+    | succ n ih => simp only [List.replicate_succ, runLoop, hit, ih]
+  · induction n with
+    | zero => simp [WellTimed]
+    | succ n ih =>
+      simp only [List.replicate_succ, WellTimed, hit]
+      refine ⟨?_, ?_, ?_, ?_, ?_, ?_, ?_, ih⟩ <;> simp [spuriousIn]
 
 /-! ## API methods return the queue's error -/
 
@@ -410,6 +495,17 @@ example : WellTimed Generated.Faults.shape cfg0 trig0 {} 0 (plans0.foldl
     (fun (acc : List In × Queue) p =>
       (acc.1 ++ [inOf acc.2 p], (iterQ Generated.Faults.shape cfg0 trig0 ⟨{}, acc.2⟩ p).2.q)) ([], [⟨1, 5⟩])).1 := by
   decide
+
+/-- the hypotheses of `C15_no_spin_on_spurious_empty` are satisfiable: two iterations, 50 apart -/
+example :
+    let ins : List In := [{ spuriousIn 0 with tickAt := 50, nowVal := 50, nowErr := 50 }, { spuriousIn 50 with tickAt := 100, nowVal := 100, nowErr := 100 }]
+    (∀ i ∈ ins, SpuriousEmpty i ∧ inBackoff Generated.Faults.shape {} i.now1 = false) ∧
+    WellTimed Generated.Faults.shape cfg0 trig0 {} 0 ins ∧
+    (runLoop Generated.Faults.shape cfg0 trig0 {} ins).1.map (·.armed) = [50, 50] := by
+  refine ⟨?_, by decide, by decide⟩
+  intro i hi
+  simp only [List.mem_cons, List.not_mem_nil, or_false] at hi
+  rcases hi with rfl | rfl <;> exact ⟨⟨⟨0, rfl⟩, rfl, rfl⟩, by decide⟩
 
 /-- the hypotheses of `C15_no_double_fire` are satisfiable and the log is non-empty -/
 example : (∀ k p t, trig0 k p = some t → p < t) ∧ (([⟨1, 5⟩, ⟨2, 7⟩] : Queue).map (·.key)).Nodup ∧
